@@ -223,8 +223,12 @@ def rand_sm_model(r, backend=None, big=False):
     backend = backend or r.choice(BACKENDS)
     tt = rand_table(r, big)
     name = r.choice(["CDPlayer", "Foo", "IFoo", "Test", "TestX", "X", camel(r, 2), camel(r, 1) + "Test"])
-    return dict(kind="sm", backend=backend, tt=tt, iface=rand_iface_spec(r, tt, backend), name=name,
-                ns=r.choice(["NS", "My::Space", camel(r, 1)]))
+    m = dict(kind="sm", backend=backend, tt=tt, iface=rand_iface_spec(r, tt, backend), name=name,
+             ns=r.choice(["NS", "My::Space", camel(r, 1)]), dclspc=r.choice(["", "", "MY_EXPORT"]))
+    if backend == "cpp" and r.random() < 0.3:
+        # the second shipped C++ template set (boost::msm flavour), given the way a user gives it: as template directory
+        m["templatedir"] = os.path.join(REPO, "kojen", "statemachine_templates_pc_boost")
+    return m
 
 
 # ---- protocol interfaces
@@ -260,7 +264,13 @@ def rand_proto_model(r, big=False):
                 d = (r.choice(["true", "false"]) if t == "bool" else str(r.randint(0, 100))) if r.random() < 0.6 else None
                 mem.append(("m%d" % j, t, d))
         msgs.append((mn, mid, mem))
-    return dict(kind="proto", backend="proto", structs=structs, msgs=msgs, preamble=r.choice([0xDEAD, 0xBEEF, 0xAAAA, 0x0100]),
+    enums = []
+    if r.random() < 0.4:
+        # enumerations of the interface: the shipped TEMPLATE.h declares them through an indented <<<ENUMS>>> (multi-line value)
+        for k in range(r.randint(1, 2)):
+            en = "E" + names(r, "", 1, taken)[0]
+            enums.append((en, [(en.upper() + "_%d" % j, j if r.random() < 0.7 else 16 * j + 1) for j in range(r.randint(1, 3))]))
+    return dict(kind="proto", backend="proto", structs=structs, msgs=msgs, enums=enums, preamble=r.choice([0xDEAD, 0xBEEF, 0xAAAA, 0x0100]),
                 name=r.choice(["ExampleIF", "Foo", "IFoo", camel(r, 2)]), ns=r.choice(["ExampleIO", "NS"]))
 
 
